@@ -8,10 +8,11 @@
        leaves the path as it is.
      prefs T pos t : one entry (text, position) per text item of an element whose type is the reference type.
    Theorem load_records: load s .. bs = Ret t st -> p_idents st = rev (pidents T [] [] t) /\ p_refs st = rev (prefs T [] t).
-   Also: load_leafy - an element whose type has an empty sub-element range has no sub-elements. *)
+   Also `linked t`: every sub-element was found by find_sub_element in its parent's type under its own name with the type it
+   carries (so an element whose type has an empty sub-element range has no sub-elements: linked_leaf). *)
 From Coq Require Import Arith Lia.
 From AV Require Import Base.Bytes Base.Outcome Base.Utf8 Hash.HashModel Spec.SpecTypes Spec.SpecOps Spec.Versions
-  Xml.Lexer Xml.Parser Xml.TablesOk Xml.Funnel Xml.ParserCheck Xml.ParserDepth.
+  Xml.Lexer Xml.Parser Xml.TablesOk Xml.Funnel Xml.ParserCheck Xml.ParserDepth Xml.StrictValidDef.
 Open Scope list_scope.
 Open Scope N_scope.
 
@@ -98,14 +99,16 @@ Proof. reflexivity. Qed.
 Lemma prefs_node pos n ty a content cm : prefs pos (ENode n ty a content cm) = pref_go prefs (is_ref_b ty) pos O content.
 Proof. reflexivity. Qed.
 
-(* an element whose type has no sub-element range has no sub-elements, hereditarily *)
+(* every sub-element was found in its parent's type under its name, with the type it carries, hereditarily *)
+Definition found_in (ty : etype) (c : etree) : Prop :=
+  exists v idx, find_sub_element T ty (e_name c) v = Val (Some (e_type c, idx)).
+Inductive linked : etree -> Prop :=
+| linked_node n ty a content cm :
+    (forall c, In (inl c) content -> found_in ty c /\ linked c) -> linked (ENode n ty a content cm).
+
+(* an element whose type has no sub-element range has no sub-elements *)
 Definition leaf_type (ty : etype) : bool :=
   match dt T (snd ty) with Val d => dt_sub_start d =? dt_sub_end d | _ => false end.
-Inductive leafy : etree -> Prop :=
-| leafy_node n ty a content cm :
-    (leaf_type ty = true -> forall c, ~ In (inl c) content) -> (forall c, In (inl c) content -> leafy c) ->
-    leafy (ENode n ty a content cm).
-
 
 Variable tab_el tab_at tab_en : nametab.
 Variable check_fn : N -> list N -> res bool.
@@ -174,12 +177,19 @@ Proof.
   rewrite L, N.sub_diag. cbn. discriminate.
 Qed.
 
-Lemma find_elem_leaf name ty st r st' : find_element_in_spec_checked s T name ty st = Val (Ret r st') -> leaf_type ty = false.
+Lemma find_elem_found name ty st r st' : find_element_in_spec_checked s T name ty st = Val (Ret r st') ->
+  exists v, find_sub_element T ty name v = Val (Some r).
 Proof.
-  intros H. destruct (leaf_type ty) eqn:L; [|reflexivity]. exfalso. unfold find_element_in_spec_checked in H.
+  intros H. unfold find_element_in_spec_checked in H.
   inv H as g s1 E1. injection E1 as <- <-. inv H as r1 s2 E2. apply lift_ret_inv in E2 as [F1 ->].
-  destruct r1 as [x|]; [exact (leaf_no_sub _ _ _ _ L F1)|].
-  inv H as r2 s3 E3. apply lift_ret_inv in E3 as [F2 ->]. destruct r2 as [x|]; [exact (leaf_no_sub _ _ _ _ L F2)|discriminate H].
+  destruct r1 as [x|]; [injection H as <- _; eauto|].
+  inv H as r2 s3 E3. apply lift_ret_inv in E3 as [F2 ->]. destruct r2 as [[sub idx]|]; [|discriminate H].
+  inv H as vm s4 E4. destruct vm as [mask|]; [|discriminate H]. inv H as u5 s5 E5. injection H as <- _. eauto.
+Qed.
+
+Lemma linked_leaf n ty a content cm : linked (ENode n ty a content cm) -> leaf_type ty = true -> forall c, ~ In (inl c) content.
+Proof.
+  intros L LT c I. inversion L as [n0 ty0 a0 c0 cm0 H]; subst. destruct (H c I) as [(v & idx & F) _]. exact (leaf_no_sub _ _ _ _ LT F).
 Qed.
 
 (* ----- the loop ----- *)
@@ -187,8 +197,8 @@ Definition recT := N -> etype -> list (N * cdata) -> option (list N) -> list N -
 
 Definition rec_ok (rec : recT) : Prop :=
   forall n ty a c p ps st sub st', rec n ty a c p ps st = Val (Ret sub st') ->
-    p_idents st' = rev (pidents p ps sub) ++ p_idents st /\ p_refs st' = rev (prefs ps sub) ++ p_refs st /\ leafy sub /\
-    e_name sub = n.
+    p_idents st' = rev (pidents p ps sub) ++ p_idents st /\ p_refs st' = rev (prefs ps sub) ++ p_refs st /\ linked sub /\
+    e_name sub = n /\ e_type sub = ty.
 
 Lemma rev_app_acc {A} (a b x : list A) : rev (a ++ b) ++ x = rev b ++ rev a ++ x.
 Proof. rewrite rev_app_distr, <- app_assoc. reflexivity. Qed.
@@ -202,7 +212,7 @@ Lemma pe_loop_records (rec : recT) : rec_ok rec ->
   exists more, t = ENode name ty attrs (content ++ more) comment /\
     p_idents st' = rev (pid_go pidents pos (List.length content) path more) ++ p_idents st /\
     p_refs st' = rev (pref_go prefs (is_ref_b ty) pos (List.length content) more) ++ p_refs st /\
-    (leaf_type ty = true -> forall c, ~ In (inl c) more) /\ (forall c, In (inl c) more -> leafy c).
+    (forall c, In (inl c) more -> found_in ty c /\ linked c).
 Proof.
   intros HR. induction k as [|k IH]; intros name ty attrs comment pos content elem_idx snf stored path st t st' H;
     [discriminate H|].
@@ -214,14 +224,14 @@ Proof.
             exists more, t = ENode name ty attrs (content ++ more) comment /\
               p_idents st' = rev (pid_go pidents pos (List.length content) path more) ++ p_idents st /\
               p_refs st' = rev (pref_go prefs (is_ref_b ty) pos (List.length content) more) ++ p_refs st /\
-              (leaf_type ty = true -> forall c, ~ In (inl c) more) /\ (forall c, In (inl c) more -> leafy c)).
+              (forall c, In (inl c) more -> found_in ty c /\ linked c)).
   { intros m cont u sx IP EM HH. destruct (ipres_inv _ _ _ _ IP EM) as [Ix Rx].
-    destruct (IH _ _ _ _ _ _ _ _ _ _ _ _ _ HH) as (more & -> & ID & RF & LF & LC). exists more.
+    destruct (IH _ _ _ _ _ _ _ _ _ _ _ _ _ HH) as (more & -> & ID & RF & LC). exists more.
     rewrite ID, RF, Ix, Rx, I2, R2. auto. }
   destruct ev as [sa|elem_text attr_text|elem_text|text|c|].
   - inv H as u3 s3 E3. exact (SKIP _ _ _ _ (ipres_optional_error _ _ _ _) E3 H).
   - inv H as nm s3 E3. apply lift_ret_inv in E3 as [_ ->]. destruct nm as [sub_name|]; [|discriminate H].
-    inv H as r s4 E4. destruct r as [sub_ty idx']. pose proof (find_elem_leaf _ _ _ _ _ E4) as NL.
+    inv H as r s4 E4. destruct r as [sub_ty idx']. destruct (find_elem_found _ _ _ _ _ E4) as (fv & FOUND).
     destruct (ipres_inv _ _ _ _ (ip_find_elem _ _) E4) as [I4 R4].
     inv H as u5 s5 E5. destruct (ipres_inv _ _ _ _ (ip_conflict _ _ _ _) E5) as [I5 R5].
     inv H as u6 s6 E6.
@@ -229,7 +239,7 @@ Proof.
     { destruct content; [injection E6 as _ <-; auto|exact (ipres_inv _ _ _ _ (ip_mult _ _ _ _) E6)]. }
     destruct IR6 as [I6 R6].
     inv H as sub_attrs s7 E7. destruct (ipres_inv _ _ _ _ (ip_pat _ _) E7) as [I7 R7].
-    inv H as sub s8 E8. destruct (HR _ _ _ _ _ _ _ _ _ E8) as (I8 & R8 & L8 & N8).
+    inv H as sub s8 E8. destruct (HR _ _ _ _ _ _ _ _ _ E8) as (I8 & R8 & L8 & N8 & T8).
     assert (BASE : p_idents s8 = rev (pidents path (List.length content :: pos) sub) ++ p_idents st /\
                    p_refs s8 = rev (prefs (List.length content :: pos) sub) ++ p_refs st).
     { rewrite I8, R8, I7, R7, I6, R6, I5, R5, I4, R4, I2, R2. auto. }
@@ -242,14 +252,13 @@ Proof.
               exists more, t = ENode name ty attrs (content ++ more) comment /\
                 p_idents st' = rev (pid_go pidents pos (List.length content) path more) ++ p_idents st /\
                 p_refs st' = rev (pref_go prefs (is_ref_b ty) pos (List.length content) more) ++ p_refs st /\
-                (leaf_type ty = true -> forall c, ~ In (inl c) more) /\ (forall c, In (inl c) more -> leafy c)).
+                (forall c, In (inl c) more -> found_in ty c /\ linked c)).
     { intros path' extra sx snf' IX RX GO HH.
-      destruct (IH _ _ _ _ _ _ _ _ _ _ _ _ _ HH) as (more & -> & ID & RF & LF & LC). rewrite len_snoc in ID, RF.
-      exists (inl sub :: more). split; [rewrite <- app_assoc; reflexivity|]. split; [|split; [|split]].
+      destruct (IH _ _ _ _ _ _ _ _ _ _ _ _ _ HH) as (more & -> & ID & RF & LC). rewrite len_snoc in ID, RF.
+      exists (inl sub :: more). split; [rewrite <- app_assoc; reflexivity|]. split; [|split].
       - rewrite ID, IX, B1, GO. rewrite !rev_app_acc, rev_involutive. reflexivity.
       - rewrite RF, RX, B2. cbn [pref_go]. rewrite rev_app_acc. reflexivity.
-      - intros L. rewrite NL in L. discriminate L.
-      - intros c [E|I]; [injection E as <-; exact L8|exact (LC c I)]. }
+      - intros c [E|I]; [injection E as <-; split; [exists fv, idx'; rewrite N8, T8; exact FOUND|exact L8]|exact (LC c I)]. }
     rewrite <- N8 in H.
     destruct (e_name sub =? name_short_name T) eqn:SN.
     + destruct (first_string sub) as [nm|] eqn:FS.
@@ -264,7 +273,7 @@ Proof.
                      (fun _ => ret (ENode name ty attrs content comment)))))) by ip_tac.
     destruct (ipres_inv _ _ _ _ IP H) as [IE RE].
     inv H as g1 s4 E4. inv H as named s5 E5. inv H as u6 s6 E6. injection H as <- _.
-    exists []. rewrite app_nil_r. cbn [pid_go pref_go rev app]. rewrite IE, RE, I2, R2. split; [reflexivity|]. split; [reflexivity|]. split; [reflexivity|]. split; [intros _ c []|intros c []].
+    exists []. rewrite app_nil_r. cbn [pid_go pref_go rev app]. rewrite IE, RE, I2, R2. split; [reflexivity|]. split; [reflexivity|]. split; [reflexivity|intros c []].
   - inv H as spec s3 E3. apply lift_ret_inv in E3 as [_ ->]. destruct spec as [cs|].
     + inv H as mode sm Em. apply lift_ret_inv in Em as [_ ->].
       destruct ((mode =? MCharacters) && negb match content with [] => true | _ :: _ => false end).
@@ -280,11 +289,10 @@ Proof.
         - rewrite rev_app_acc. reflexivity.
         - reflexivity. }
       destruct ST6 as [I6 R6].
-      destruct (IH _ _ _ _ _ _ _ _ _ _ _ _ _ H) as (more & -> & ID & RF & LF & LC). rewrite len_snoc in ID, RF.
-      exists (inr value :: more). split; [rewrite <- app_assoc; reflexivity|]. split; [|split; [|split]].
+      destruct (IH _ _ _ _ _ _ _ _ _ _ _ _ _ H) as (more & -> & ID & RF & LC). rewrite len_snoc in ID, RF.
+      exists (inr value :: more). split; [rewrite <- app_assoc; reflexivity|]. split; [|split].
       * rewrite ID, I6, I4, I2. reflexivity.
       * rewrite RF, <- R6, R4, R2. reflexivity.
-      * intros L c [E|I]; [discriminate E|exact (LF L c I)].
       * intros c [E|I]; [discriminate E|exact (LC c I)].
     + inv H as u4 s4 E4. exact (SKIP _ _ _ _ (ipres_optional_error _ _ _ _) E4 H).
   - exact (SKIP (ret tt) _ tt s2 (ipres_ret tt) eq_refl H).
@@ -294,13 +302,14 @@ Qed.
 Lemma parse_element_records fuel lfuel : rec_ok (PE fuel lfuel).
 Proof.
   induction fuel as [|f IH]; intros n ty a c p ps st sub st' H; [discriminate H|]. cbn [parse_element] in H.
-  destruct (pe_loop_records _ IH _ _ _ _ _ _ _ _ _ _ _ _ _ _ H) as (more & -> & ID & RF & LF & LC). cbn [app List.length] in *.
-  split; [exact ID|]. split; [exact RF|]. split; [constructor; assumption|reflexivity].
+  destruct (pe_loop_records _ IH _ _ _ _ _ _ _ _ _ _ _ _ _ _ H) as (more & -> & ID & RF & LC). cbn [app List.length] in *.
+  split; [exact ID|]. split; [exact RF|]. split; [constructor; assumption|split; reflexivity].
 Qed.
 
 Theorem load_records bs t st :
   load s T tab_el tab_at tab_en check_fn float_parse bs = Val (Ret t st) ->
-  p_idents st = rev (pidents [] [] t) /\ p_refs st = rev (prefs [] t) /\ leafy t.
+  p_idents st = rev (pidents [] [] t) /\ p_refs st = rev (prefs [] t) /\ linked t /\
+  et_new T (autosar_element T) = Val (e_type t).
 Proof.
   unfold load.
   destruct (version_of_ident "Autosar_4_0_1") as [v401|]; [|destruct (elem T (autosar_element T)); discriminate].
@@ -314,12 +323,12 @@ Proof.
   inv H as nm s5 E5. apply lift_ret_inv in E5 as [_ ->]. inv H as an s6 E6.
   assert (S6 : s6 = s4). { unfold autosar_name in E6. inv E6 as e0 sy Ey. apply lift_ret_inv in Ey as [_ ->]. injection E6 as _ <-. reflexivity. }
   subst s6. destruct nm as [n0|]; [|discriminate H]. destruct (n0 =? an); [|discriminate H].
-  inv H as rt s7 E7. apply lift_ret_inv in E7 as [_ ->].
+  inv H as rt s7 E7. apply lift_ret_inv in E7 as [RT ->].
   inv H as attributes s8 E8. destruct (ipres_inv _ _ _ _ (ip_pat _ _) E8) as [I8 R8].
   inv H as u9 s9 E9. destruct (ipres_inv _ _ _ _ (ip_pfh _) E9) as [I9 R9].
-  inv H as root s10 E10. destruct (parse_element_records _ _ _ _ _ _ _ _ _ _ _ E10) as (I10 & R10 & L10 & _).
+  inv H as root s10 E10. destruct (parse_element_records _ _ _ _ _ _ _ _ _ _ _ E10) as (I10 & R10 & L10 & _ & T10).
   inv H as u11 s11 E11. destruct (ipres_inv _ _ _ _ ip_verify_end E11) as [I11 R11]. injection H as <- <-.
-  rewrite I11, R11, I10, R10, I9, R9, I8, R8, I4, R4, I3, R3, I1, R1. cbn [init_pstate p_idents p_refs]. rewrite !app_nil_r. auto.
+  rewrite I11, R11, I10, R10, I9, R9, I8, R8, I4, R4, I3, R3, I1, R1. cbn [init_pstate p_idents p_refs]. rewrite !app_nil_r, T10. auto.
 Qed.
 
 End Records.
